@@ -5,8 +5,8 @@
    (PathMatcher, SmarterPathSplitter), Res/Replacement.v (replacement.Filter).
    External behaviour enters as parameters: [parse] (regexp.Compile: pattern text -> AST),
    [lsel] (k8s label selectors), [enc] (go-yaml emitter), [cluster_scoped] (openapi). *)
-From KV Require Import Base.Regex Base.RegexProofs Yaml.Match Yaml.MatchProofs Yaml.MatchTotalProofs Yaml.MatchCreateProofs Yaml.MatchFrameProofs
-  Res.Image Res.ImageProofs Res.ImageNormProofs Res.Selector Res.SelectorProofs Res.Replica Res.ReplicaProofs
+From KV Require Import Base.Regex Base.RegexProofs Yaml.Match Yaml.MatchProofs Yaml.MatchTotalProofs Yaml.MatchCreateProofs Yaml.MatchFrameProofs Yaml.MatchDisjointProofs
+  Res.Image Res.ImageProofs Res.ImageNormProofs Res.ImageParseProofs Base.RegexParse Res.Selector Res.SelectorProofs Res.Replica Res.ReplicaProofs
   Res.Replacement Res.ReplacementProofs Res.ReplacementFrameProofs.
 
 (* ------------------------------------------------------------------ regular expressions *)
@@ -78,6 +78,22 @@ Theorem C10_image_exact :
     forall s t, is_matched parse s t = Ok true <-> image_ref_of t s.
 Proof. exact image_exact. Qed.
 Print Assumptions C10_image_exact.
+
+(* The same WITHOUT any hypothesis about the parser: with the Gallina parser [re_parse]
+   (Base/RegexParse.v) in the place of regexp.Compile, for every ASCII entry name.  The tie to Go's
+   regexp/syntax is the correspondence: for every generated entry name the AST re_parse yields for the
+   pattern text and the AST Go yields have the same normal form (case kind KImgAst). *)
+Theorem C10_image_exact_parsed :
+  forall s t, ascii_text t = true -> (is_matched re_parse s t = Ok true <-> image_ref_of t s).
+Proof. exact image_exact_parsed. Qed.
+Print Assumptions C10_image_exact_parsed.
+
+(* what the parser reads out of the pattern the code builds: ^, the bytes of t, the two optional groups, $ *)
+Theorem C10_regex_parse_image_pattern :
+  forall t, ascii_text t = true ->
+    re_parse ("^" ++ quote_meta t ++ img_suffix) = Some (cat_of_list (image_items t)).
+Proof. exact re_parse_image_pattern. Qed.
+Print Assumptions C10_regex_parse_image_pattern.
 
 (* ... and the match always answers (no panic, no error) *)
 Theorem C10_image_match_total :
@@ -232,15 +248,23 @@ Theorem C10_replacement_target_fields_exact :
 Proof. exact apply_node_keeps. Qed.
 Print Assumptions C10_replacement_target_fields_exact.
 
-(* every returned field receives set_field_value of the value (private copy of the value,
-   returned addresses that do not overlap) *)
+(* the addresses PathMatcher returns never overlap (no returned node at, above or below another one) *)
+Theorem C10_match_hits_disjoint :
+  forall parse enc nonstr (create : option kind) fuel (path : list string) (n n' : node) (hits : list hit),
+    pm parse enc nonstr create fuel path n = Ok (n', hits) -> pairwise_incomparable (at_addrs hits) = true.
+Proof. exact pm_hits_incomparable. Qed.
+Print Assumptions C10_match_hits_disjoint.
+
+(* EVERY field the matcher returned receives set_field_value of the value (for a private copy of the
+   value, i.e. not the live source node) *)
 Theorem C10_replacement_written_all :
-  forall (opts : option field_options) (value : node) (hits : list hit) (n n' : node) (st : node * option addr),
-    write_hits opts None value hits n = Ok (n', st) ->
-    pairwise_incomparable (at_addrs hits) = true ->
-    forall h x, In (HAt h) hits -> get_at h n = Some x ->
+  forall parse enc nonstr (create : option kind) fuel (path : list string)
+         (opts : option field_options) (value n d : node) (hits : list hit) (n' : node) (st : node * option addr),
+    pm parse enc nonstr create fuel path n = Ok (d, hits) ->
+    write_hits opts None value hits d = Ok (n', st) ->
+    forall h x, In (HAt h) hits -> get_at h d = Some x ->
       exists x', set_field_value opts value x = Ok x' /\ get_at h n' = Some x'.
-Proof. exact write_hits_all. Qed.
+Proof. exact matched_fields_written. Qed.
 Print Assumptions C10_replacement_written_all.
 
 (* the value written at a (single) returned field is what setFieldValue makes of the old node ... *)
